@@ -16,14 +16,16 @@
    A kyber public key is abstract: [kbin] is what Point.MarshalTo writes,
    [kstr] what Point.String() returns, [ktype] the concrete Go point type
    (Add between different point types panics).  A nil Public is [None].
-   Go panics are [RCrash], a nil result is [RNil]. *)
+   Go panics are [RCrash], a nil result is [RNil].  [RErr] (a returned error) is
+   never produced by the model: it exists so that an implementation that
+   returns an error where the pinned code panics is told apart, not merged. *)
 From Coq Require Import List Arith Bool Ascii String NArith.
 Import ListNotations.
 From Onet Require Export Base.C13Bytes.
 
 Record key := { kbin : bytes; kstr : bytes; ktype : nat }.
 
-Inductive res := RCrash | RNil | RId (id : bytes).
+Inductive res := RCrash | RNil | RErr | RId (id : bytes).
 
 (* network.NamespaceURL *)
 Definition ns_url : bytes := bs "https://dedis.epfl.ch/".
